@@ -694,8 +694,26 @@ func runFree(rc *Recorder, w *World, rounds, k int) error {
 // stays within the bound after every call (seed C13d: the loop of DB.Sync left at the WAL size measured on
 // entry). Only the bound (policy_bounded_ok, the statement of C13) is applied: the per-call model of
 // policy_sync has no commit in the middle of a call.
+// histories run concurrently in this process and litestream.VerifTracePoint is one global: a
+// dispatcher installed once hands each event to the hook registered for ITS database object
+var (
+	drainHooks    sync.Map // *litestream.DB -> func(ev string)
+	drainHookOnce sync.Once
+)
+
+func installDrainDispatcher() {
+	drainHookOnce.Do(func() {
+		litestream.VerifTracePoint = func(o any, ev string) {
+			if f, ok := drainHooks.Load(o); ok {
+				f.(func(string))(ev)
+			}
+		}
+	})
+}
+
 func runDrainWriter(rc *Recorder, w *World, rounds int) error {
-	defer func() { litestream.VerifTracePoint = nil }()
+	installDrainDispatcher()
+	defer drainHooks.Delete(w.ldb)
 	for i := 0; i < rounds; i++ {
 		for j, n := 0, 3+w.rng.Intn(3); j < n; j++ {
 			if err := w.writeTx(1 + w.rng.Intn(2)); err != nil {
@@ -704,15 +722,15 @@ func runDrainWriter(rc *Recorder, w *World, rounds int) error {
 		}
 		fired := false
 		var werr error
-		litestream.VerifTracePoint = func(_ any, ev string) {
+		drainHooks.Store(w.ldb, func(ev string) {
 			if ev != "exec.rel" || fired {
 				return
 			}
 			fired = true
 			werr = w.writeTx(1)
-		}
+		})
 		err := w.ldb.Sync(context.Background())
-		litestream.VerifTracePoint = nil
+		drainHooks.Delete(w.ldb)
 		rc.syncs++
 		w.trace = append(w.trace, fmt.Sprintf("S+commit@exec.rel(%v)", fired))
 		if werr != nil {
